@@ -42,6 +42,17 @@ def check(ctx, cfg):
     r4(ctx, cfg)
     r5(ctx, cfg)
     r6(ctx, cfg)
+    r7(ctx, cfg)
+
+
+def r7(ctx, cfg):
+    """"a query ... observes the effects of everything that completed earlier in the same transaction": the reward a Delegation query
+    reports includes what earlier operations of the same block have already credited to the entry - every answer of
+    get_rewards_internal is the accrued amount plus the new share (C15.R2's obligation under C10's id; feature `staking`)"""
+    if not cfg.has("staking"):
+        return
+    from rules import C15
+    C15.shown_is_total(ctx, cfg, R="C10.R7")
 
 
 def r6(ctx, cfg):
